@@ -70,6 +70,10 @@ func (w c28) Gen(r *sim.Rng, tier string) *scn.Scn {
 		typ = gen.TOpen2
 	}
 	s.Objects = []scn.Object{{Type: typ}}
+	if synthOdds := map[string]int{"C11": 4, "C28": 8, "C12": 12}[w.id]; synthOdds > 0 && r.Chance(1, synthOdds) {
+		s.Objects = []scn.Object{{Type: "synth", Seed: r.U64() >> 20}}
+		s.P["synth_builder"] = int64(r.Intn(2))
+	}
 	if r.Chance(1, 3) {
 		s.P["dynamic"] = int64(r.Range(1, 2)) // 1: dynamicpb over the linked descriptor, 2: over a protodesc-rebuilt one
 	}
@@ -1014,6 +1018,40 @@ func appendScalarField(b []byte, fd protoreflect.FieldDescriptor, v model.Scalar
 func mathFloat32bits(f float32) uint32 { return math.Float32bits(f) }
 func mathFloat64bits(f float64) uint64 { return math.Float64bits(f) }
 
+// c28CheckSynth compares what the built descriptors say about every field of a synthetic file with
+// what the generator declared (its own resolution of the feature settings it wrote).
+func c28CheckSynth(spec *gen.SynthSpec, main protoreflect.MessageDescriptor, builder int) (aspect, bad string) {
+	bname := []string{"reflect/protodesc", "internal/filedesc"}[builder&1]
+	var walk func(md protoreflect.MessageDescriptor)
+	seen := map[protoreflect.FullName]bool{}
+	walk = func(md protoreflect.MessageDescriptor) {
+		if seen[md.FullName()] || bad != "" {
+			return
+		}
+		seen[md.FullName()] = true
+		fds := md.Fields()
+		for i := 0; i < fds.Len() && bad == ""; i++ {
+			fd := fds.Get(i)
+			if sf := spec.Fields[fd.FullName()]; sf != nil {
+				where := fmt.Sprintf("synthetic editions file seed %d built by %s; file features%s; field %s declares%s", spec.Seed, bname, spec.FileDecl, fd.FullName(), sf.Declared)
+				switch {
+				case fd.HasPresence() != sf.Presence:
+					aspect, bad = "has", fmt.Sprintf("%s: HasPresence()=%v, want %v", where, fd.HasPresence(), sf.Presence)
+				case (fd.Cardinality() == protoreflect.Required) != sf.Required:
+					aspect, bad = "has", fmt.Sprintf("%s: Cardinality()=%v, required wanted: %v", where, fd.Cardinality(), sf.Required)
+				}
+				// (packed-ness, delimited encoding and enum closedness are also declared in the spec; they
+				// belong to the feature-resolution property C38, which is not claimed, and are not compared)
+			}
+			if cm := fd.Message(); cm != nil {
+				walk(cm)
+			}
+		}
+	}
+	walk(main)
+	return
+}
+
 func (w c28) report(aspect string) bool { return w.aspects == nil || w.aspects[aspect] }
 
 func (w c28) Run(s *scn.Scn, x *sim.Exec) {
@@ -1022,8 +1060,27 @@ func (w c28) Run(s *scn.Scn, x *sim.Exec) {
 	}
 	typ := s.Objects[0].Type
 	dyn := s.P["dynamic"] >= 1
-	rootMD := gen.Type(typ).Descriptor()
-	if s.P["dynamic"] == 2 {
+	var rootMD protoreflect.MessageDescriptor
+	if typ == "synth" {
+		// a synthetic editions file with random feature settings, built by one of the two descriptor builders
+		spec, md, err := gen.Synth(s.Objects[0].Seed, int(s.P["synth_builder"]))
+		if err != nil || md == nil {
+			// refusing the file is not a matter of the claimed properties: counted, scenario skipped
+			x.Probe("synthetic-file-refused-by-builder", 1)
+			return
+		}
+		rootMD, dyn = md, true
+		x.Probe("synthetic-editions-file-scenarios", 1)
+		if aspect, bad := c28CheckSynth(spec, md, int(s.P["synth_builder"])); bad != "" {
+			if w.report(aspect) {
+				x.Fail("model-mismatch:"+aspect, "%s", bad)
+			}
+			return
+		}
+	} else {
+		rootMD = gen.Type(typ).Descriptor()
+	}
+	if s.P["dynamic"] == 2 && typ != "synth" {
 		// dynamicpb over the descriptor as reflect/protodesc rebuilds it from the FileDescriptorProto
 		if md := gen.Rebuilt(typ); md != nil {
 			rootMD = md
@@ -1197,7 +1254,7 @@ func (w c28) Run(s *scn.Scn, x *sim.Exec) {
 	if dyn {
 		x.Probe("dynamicpb-scenarios", 1)
 	}
-	shape := typ + fmt.Sprint(dyn)
+	shape := typ + fmt.Sprint(dyn, s.Objects[0].Seed, s.P["synth_builder"])
 	for _, ph := range s.Phases {
 		for _, c := range ph.Clients {
 			for _, op := range c {
